@@ -2909,6 +2909,8 @@ static int scan_delim_string(struct scanner_s *scanner) {
 
             if (c == delim) {
                 PEEK_CHAR(scanner, c, result);
+                /* peeking may have refilled, moved, or reallocated the buffer */
+                top = scanner->buffer + scanner->buffer_limit;
 
                 if (result != CIF_EOF) {
                     if (result != CIF_OK) {
